@@ -1,3 +1,23 @@
+/-
+  C16 — forward totality: `insert_vertices_on_edge` and the whole step 5 (`insert_edges_in_map`) SUCCEED under conditions on the
+  map before the call.  (C14 and Props/C16EdgeInsert.lean prove the elimination direction: what an `Ok` means.)
+
+  * `link1_fwd`, `link2_fwd`, `unlink1_fwd`, `unlink2_fwd`   the four link cores, forwards: accepted, result well formed, new β in closed form
+  * `chainFirst_total`, `chainSecond_total`, `placeVertices_total`, `insertVerticesBody_total`
+  * `C16_insertVertices_total_partial`   the kernel answers `Ok` on a 2-linked edge whose two darts have a successor (every edge the
+                                         pipeline splits), spare darts in use / free / distinct, positions in ]0,1[, both end points
+                                         carrying a value — with C14d's `insertVertices_reads` for the validation part
+  * `markBoundary_total`, `replaceInter_total`   the two attribute passes of step 5
+  * `insertOneEdge_total`                one iteration, any number of intermediate points, with the β0 / β1 frame for the darts handed
+                                         out before
+  * `EdgeOK`, `Indep`                    the conditions: `Ready` (Props/C16Step5Total.lean) + a coordinate at both end points; a later
+                                         edge does not start / end at a dart an earlier edge redirects
+  * `C16_stepFive_total_indep_partial`   step 5 succeeds when, IN THE MAP BEFORE THE STEP, every edge is `EdgeOK` and the edges are
+                                         pairwise `Indep`.  PARTIAL: independence is assumed (edges sharing a dart are covered, without
+                                         intermediate points, by `C16_stepFive_total_partial`).
+  NOT proved: the same for steps 2–3 (the loop of `insert_intersections` over all edges: the kernel totality is here, the transport of
+  its hypotheses along that loop is not).
+-/
 import Honeycomb.Props.C16Step5Total
 import Honeycomb.Props.C14d
 import Honeycomb.Props.C16Chain
@@ -601,7 +621,7 @@ theorem insertOneEdge_total {m : Map Val} {next i : Nat} {ha : Bool} {e : MEdge}
         | nil => rw [hi] at hemp; simp at hemp
         | cons _ _ => simp
       have hslice : (List.range' next (2 + 2 * k)).drop 2 = List.range' (next + 2) (2 * k) := by
-        rw [List.drop_range']; congr 1 <;> omega
+        rw [List.drop_range']; congr 1; omega
       rw [hslice]
       have hmem : ∀ d, d ∈ List.range' (next + 2) (2 * k) → next + 2 ≤ d ∧ d < next + 2 + 2 * k := by
         intro d hd; rw [List.mem_range'_1] at hd; exact hd
@@ -624,7 +644,7 @@ theorem insertOneEdge_total {m : Map Val} {next i : Nat} {ha : Bool} {e : MEdge}
         List.nodup_range'
         (fun t ht => by
           obtain ⟨_, _, rfl⟩ := List.mem_map.1 ht
-          constructor <;> norm_num)
+          exact ⟨by norm_num, by norm_num⟩)
         (by rw [hvid, c1.2]; rfl) (by rw [e2, c2.2]; rfl)
       rw [nn1] at r2
       have hlive : ∀ d, d ∈ List.range' (next + 2) (2 * k) → m1.unused d = false := by
@@ -736,5 +756,138 @@ theorem insertOneEdge_total {m : Map Val} {next i : Nat} {ha : Bool} {e : MEdge}
       · have := w3.inv01 (sh.getLastD (next + 1)) (by rw [nn3]; exact hL2.2) (by rw [hlast2]; exact n1)
         rw [hlast2] at this; rw [h2, this]; exact hL2.1
       · rw [fr0 d hd h1 h2, e7 d h1 h2 (by omega) (by omega)]; exact hd0
+
+/-! ## the whole step 5 -/
+
+/-- what an edge needs at its turn: the decidable condition of `build_base_edge`, and a value at its two end points -/
+def EdgeOK (m : Map Val) (e : MEdge) : Prop :=
+  Ready m e ∧ (∃ P, Carries m (m.β 1 e.start) P) ∧ ∃ P, Carries m e.stop P
+
+/-- the later edge `e'` does not start at a dart whose successor the earlier edge `e` redirects, nor end at a dart whose
+    predecessor it redirects -/
+def Indep (m : Map Val) (e e' : MEdge) : Prop :=
+  e'.start ≠ e.start ∧ e'.start ≠ m.β 0 e.stop ∧ e'.stop ≠ e.stop ∧ e'.stop ≠ m.β 1 e.start
+
+instance (m : Map Val) (e e' : MEdge) : Decidable (Indep m e e') := by unfold Indep; infer_instance
+
+theorem insertEdgesFrom_total (ha : Bool) : ∀ (edges : List MEdge) (m : Map Val) (next i : Nat), EInv m next →
+    sBd < m.a.size → (ha = true → sVA < m.a.size) → (∀ e, e ∈ edges → EdgeOK m e) → edges.Pairwise (Indep m) →
+    next + (edges.map fun e => 2 + 2 * e.inter.length).sum ≤ m.n →
+    ∃ m', run (insertEdgesFrom m.n ha i (edges.zip (edgeSlices next edges))) m = (.ok (), m') := by
+  intro edges
+  induction edges with
+  | nil =>
+      intro m next i _ _ _ _ _ _
+      exact ⟨m, by simp only [edgeSlices, List.zip_nil_right, insertEdgesFrom, Prog.pure_eq, run_ret]⟩
+  | cons e es ih =>
+      intro m next i I hA hva hall hpw hroom
+      simp only [List.map_cons, List.sum_cons] at hroom
+      obtain ⟨R, c1, c2⟩ := hall e List.mem_cons_self
+      obtain ⟨m1, r1, as1, F1, F1', F0, F0'⟩ := insertOneEdge_total (i := i) I hA hva R (by omega) c1 c2
+      obtain ⟨I1, nn1, uu1⟩ := C16_insertOneEdge_inv I R.1 R.2.1 (by omega) r1
+      have hwf := I.wf
+      have notFresh : ∀ d, d < m.n → (∃ j, j < 3 ∧ m.β j d ≠ 0) → d < next := by
+        intro d hd ⟨j, hj, hne⟩
+        rcases Nat.lt_or_ge d next with h' | h'
+        · exact h'
+        · exact absurd ((I.fresh d h' hd).2.1 j hj) hne
+      obtain ⟨hind, hpw'⟩ := List.pairwise_cons.1 hpw
+      -- what the later edges read is untouched
+      have keep : ∀ e', e' ∈ es → e'.start < next ∧ e'.stop < next ∧ m1.β 1 e'.start = m.β 1 e'.start ∧
+          m1.β 0 e'.stop = m.β 0 e'.stop ∧ m.β 1 e'.start < next := by
+        intro e' he'
+        obtain ⟨⟨hs', hst', n1', n0', _⟩, _, _⟩ := hall e' (List.mem_cons_of_mem _ he')
+        obtain ⟨i1, i2, i3, i4⟩ := hind e' he'
+        have a := notFresh _ hs'.2.1 ⟨1, by omega, n1'⟩
+        have b := notFresh _ hst'.2.1 ⟨0, by omega, n0'⟩
+        have c : m.β 1 e'.start < next := notFresh _ (hwf.range 1 (by omega) _ hs'.2.1)
+          ⟨0, by omega, by rw [hwf.inv01 _ hs'.2.1 n1']; exact hs'.1⟩
+        exact ⟨a, b, F1 _ a i1 i2, F0 _ b i3 i4, c⟩
+      have hall' : ∀ e', e' ∈ es → EdgeOK m1 e' := by
+        intro e' he'
+        obtain ⟨R', ⟨P1, hP1⟩, ⟨P2, hP2⟩⟩ := hall e' (List.mem_cons_of_mem _ he')
+        obtain ⟨a, b, k1, k0, c⟩ := keep e' he'
+        refine ⟨ready_step I R' nn1 uu1 F1' F0', ⟨P1, ?_⟩, ⟨P2, ?_⟩⟩
+        · rw [k1]
+          exact carriesS_insertOneEdge I R.1 R.2.1 (by omega) r1 (by decide) c hP1
+        · exact carriesS_insertOneEdge I R.1 R.2.1 (by omega) r1 (by decide) b hP2
+      have hpw1 : es.Pairwise (Indep m1) := by
+        refine List.Pairwise.imp_of_mem ?_ hpw'
+        intro a b ha' _ hab
+        obtain ⟨_, _, k1, k0, _⟩ := keep a ha'
+        unfold Indep at hab ⊢
+        rw [k1, k0]; exact hab
+      obtain ⟨m', r'⟩ := ih m1 (next + (2 + 2 * e.inter.length)) (i + 1) I1 (by rw [as1]; exact hA)
+        (by intro h; rw [as1]; exact hva h) hall' hpw1 (by rw [nn1]; omega)
+      refine ⟨m', ?_⟩
+      simp only [edgeSlices, List.zip_cons_cons, insertEdgesFrom, Prog.bind_eq]
+      rw [run_bind_of_ok r1, ← nn1]
+      exact r'
+
+/-- **C16, step 5 — a sufficient condition for success, edges with any number of intermediate points** (partial: for edges
+    that are pairwise independent, `Indep`).  On a well-formed map that has the storages step 5 writes and carries no tag,
+    `insert_edges_in_map` succeeds as soon as, IN THE MAP BEFORE THE STEP, every edge is `Ready` (decidable: its darts in use,
+    a successor, a predecessor, not consecutive — no consecutive-darts panic), its two end points carry a coordinate (no
+    `UndefinedEdge` from `insert_vertices_on_edge`), and no later edge starts / ends at a dart an earlier edge redirects.
+    Inside: forward totality of `build_base_edge`, of `insert_vertices_on_edge` (`C16_insertVertices_total_partial`), of the
+    placeholder replacement and of the walk of `mark_boundary`; the conditions are transported along the loop. -/
+theorem C16_stepFive_total_indep_partial {m : Map Val} {ha : Bool} {edges : List MEdge} (hwf : WF 3 m)
+    (hnotag : ∀ d, m.att sBd d = none) (hA : sBd < m.a.size) (hva : ha = true → sVA < m.a.size)
+    (hok : ∀ e, e ∈ edges → EdgeOK m e) (hind : edges.Pairwise (Indep m)) :
+    ∃ m', stepFive m ha edges = (.ok (), m') := by
+  unfold stepFive
+  simp only
+  set k := (edges.map fun e => 2 + 2 * e.inter.length).sum with hk
+  have hs := hwf.toSized
+  have w1 : WF 3 (m.addFreeDarts k).2 := hwf.addFreeDarts (by omega) k
+  have hn1 : (m.addFreeDarts k).2.n = m.n + k := rfl
+  have t1 := addFreeDarts_att_none sBd hnotag k
+  have I1 : EInv (m.addFreeDarts k).2 m.n := by
+    refine ⟨w1, fun d => Or.inl (t1 d), ?_, hs.npos, ?_⟩
+    · intro d _ _ _
+      show (m.addFreeDarts k).2.att sBd d = _ ↔ (m.addFreeDarts k).2.att sBd _ = _
+      rw [t1, t1]; simp
+    · intro d hd hdn
+      refine ⟨?_, ?_, t1 d⟩
+      · rw [addFreeDarts_unused hs, if_neg (by omega)]
+      · intro i hi; rw [addFreeDarts_β hs k i d hi, if_neg (by omega)]
+  have eβ : ∀ i d, i < 3 → d < m.n → (m.addFreeDarts k).2.β i d = m.β i d := by
+    intro i d hi hd; rw [addFreeDarts_β hs k i d hi, if_pos hd]
+  have hok' : ∀ e, e ∈ edges → EdgeOK (m.addFreeDarts k).2 e := by
+    intro e he
+    obtain ⟨⟨a, b, c1, c0, cc⟩, ⟨P1, hP1⟩, ⟨P2, hP2⟩⟩ := hok e he
+    refine ⟨⟨⟨a.1, by rw [hn1]; have := a.2.1; omega, ?_⟩, ⟨b.1, by rw [hn1]; have := b.2.1; omega, ?_⟩, ?_, ?_, ?_⟩,
+      ⟨P1, ?_⟩, ⟨P2, carries_addFreeDarts hwf k hP2⟩⟩
+    · rw [addFreeDarts_unused hs, if_pos a.2.1]; exact a.2.2
+    · rw [addFreeDarts_unused hs, if_pos b.2.1]; exact b.2.2
+    · rw [eβ 1 _ (by omega) a.2.1]; exact c1
+    · rw [eβ 0 _ (by omega) b.2.1]; exact c0
+    · rw [eβ 1 _ (by omega) a.2.1]; exact cc
+    · rw [eβ 1 _ (by omega) a.2.1]; exact carries_addFreeDarts hwf k hP1
+  have hind' : edges.Pairwise (Indep (m.addFreeDarts k).2) := by
+    refine List.Pairwise.imp_of_mem ?_ hind
+    intro a b ha' _ hab
+    obtain ⟨⟨ia, ib, _⟩, _⟩ := hok a ha'
+    unfold Indep at hab ⊢
+    rw [eβ 0 _ (by omega) ib.2.1, eβ 1 _ (by omega) ia.2.1]; exact hab
+  have hsz : (m.addFreeDarts k).2.a.size = m.a.size := by simp only [Map.addFreeDarts, Array.size_map]
+  have hfst : (m.addFreeDarts k).1 = m.n := rfl
+  rw [hfst]
+  exact insertEdgesFrom_total ha edges _ m.n 0 I1 (by rw [hsz]; exact hA) (by intro h; rw [hsz]; exact hva h) hok' hind'
+    (by rw [hn1])
+
+/-- the edge of `C16EdgeInsert` (one point of interest, across the cell `exCell`): the hypotheses hold -/
+example : ∃ m', stepFive exCell true [exEdge] = (.ok (), m') :=
+  C16_stepFive_total_indep_partial exCell_wf exCell_notag (by decide +kernel) (fun _ => by decide +kernel)
+    (by
+      intro e he
+      simp only [List.mem_cons, List.not_mem_nil, or_false] at he
+      subst he
+      refine ⟨by decide +kernel, ⟨.pt 1 0 0, by decide +kernel, ?_⟩, ⟨.pt 1 1 0, by decide +kernel, ?_⟩⟩
+      · have h : C03.cellId exCell .vertex (exCell.β 1 exEdge.start) = 2 := by decide +kernel
+        rw [h]; decide +kernel
+      · have h : C03.cellId exCell .vertex exEdge.stop = 3 := by decide +kernel
+        rw [h]; decide +kernel)
+    (List.pairwise_singleton _ _)
 
 end HC.C16
